@@ -341,6 +341,10 @@ func ruleOpSiblings(c *Ctx, r *Report, prefix string) {
 						a = ia.X
 					}
 					if fa, isFA := a.(*ssa.FieldAddr); isFA && fieldOfAddr(fa) == fRep && !allowed[fn] {
+						// state.Reset may clear the distances in place (it used to do so by assigning the whole struct)
+						if k, isK := st.Val.(*ssa.Const); isK && (k.Value == nil || k.Value.ExactString() == "0") && fn == c.funcQuiet("lzma", "state.Reset") {
+							continue
+						}
 						extra = append(extra, FnName(fn))
 					}
 				}
